@@ -37,10 +37,9 @@ Proof. intro Hmu. pose proof (goodM_range M (inDomain_good M D)) as HM. pose pro
   assert (Hmr : 0 <= 2 * mu * r0 < p32) by (unfold p32 in *; nia).
   change p63 with (p31 * p32) in H1, H2. unfold p31, p32 in *. split; nia. Qed.
 
-Theorem approxPhase_near mu e : 0 <= mu < M -> M * Z.abs e + M + 1 < p31 ->
-  approxPhase (w32 (modSwitchTo mu M + e)) M = modSwitchTo mu M.
+Theorem modSwitchFrom_near mu e : 0 <= mu < M -> M * Z.abs e + M + 1 < p31 ->
+  modSwitchFrom (w32 (modSwitchTo mu M + e)) M = mu.
 Proof. intros Hmu He. pose proof (goodM_range M (inDomain_good M D)) as HM.
-  rewrite (approxPhase_is_encode_of_switch _ M D). f_equal.
   destruct (modSwitchTo_encT mu Hmu) as [HE HT]. pose proof (encT_close mu Hmu) as Hc.
   set (T := encT mu) in *.
   destruct (modSwitchFrom_nearest (w32 (modSwitchTo mu M + e)) M D) as [Hk (r & Hr & Hn)].
@@ -67,6 +66,21 @@ Proof. intros Hmu He. pose proof (goodM_range M (inDomain_good M D)) as HM.
     assert (Hr' : r = mu).
     { assert (Z.abs (M * (T + e) - mu * p32) < p31) by (unfold p31, p32 in *; nia). unfold p31, p32 in *; nia. }
     destruct Hr as [Hr|[_ Hr]]; lia. Qed.
+
+Theorem approxPhase_near mu e : 0 <= mu < M -> M * Z.abs e + M + 1 < p31 ->
+  approxPhase (w32 (modSwitchTo mu M + e)) M = modSwitchTo mu M.
+Proof. intros Hmu He. rewrite (approxPhase_is_encode_of_switch _ M D). f_equal. now apply modSwitchFrom_near. Qed.
+
+(* mu copies of the encoding of 1 are within mu units of the encoding of mu (exact when M is a power of two) *)
+Lemma encT_scale mu : 0 <= mu < M -> 0 <= encT mu - mu * encT 1 <= mu.
+Proof. intro Hmu. unfold encT. set (X := 2 * (p63 / M)). replace (1 * X) with X by ring.
+  pose proof (Z.div_mod X p32 ltac:(unfold p32; lia)) as E. pose proof (Z.mod_pos_bound X p32 ltac:(reflexivity)) as Hr.
+  set (a := X / p32) in *. set (r := X mod p32) in *.
+  replace (mu * X) with (mu * r + (mu * a) * p32) by (rewrite E; ring).
+  rewrite Z.div_add by (unfold p32; lia).
+  assert (0 <= mu * r / p32 <= mu).
+  { split; [apply Z.div_pos; [nia|reflexivity]|]. apply Z.div_le_upper_bound; [reflexivity|]. nia. }
+  lia. Qed.
 End Dec.
 
 (* LWE: a ciphertext whose phase is the encoding plus an error below the threshold decrypts to the encoding *)
